@@ -116,8 +116,20 @@ func (s *sliceReader) ScanRange(lo, hi []byte) (sstables.SSTableIteratorI, error
 	return s.iter(i, j), nil
 }
 func (s *sliceReader) Close() error { return nil }
+
+// MetaData is as truthful as that of a real table (a stacked reader may prune tables by their key range).
 func (s *sliceReader) MetaData() *proto.MetaData {
-	return &proto.MetaData{NumRecords: uint64(len(s.ps))}
+	md := &proto.MetaData{NumRecords: uint64(len(s.ps)), Version: 1}
+	if len(s.ps) > 0 {
+		md.MinKey = append([]byte{}, s.ps[0].k...)
+		md.MaxKey = append([]byte{}, s.ps[len(s.ps)-1].k...)
+	}
+	for _, p := range s.ps {
+		if p.v == nil {
+			md.NullValues++
+		}
+	}
+	return md
 }
 func (s *sliceReader) BasePath() string { return "slice" }
 
@@ -141,7 +153,11 @@ type captureWriter struct {
 
 func (w *captureWriter) Open() error { return nil }
 func (w *captureWriter) WriteNext(k, v []byte) error {
-	w.out = append(w.out, pair{append([]byte{}, k...), v})
+	var vc []byte
+	if v != nil {
+		vc = append([]byte{}, v...) // the merger may hand out buffers that are only valid until its next step
+	}
+	w.out = append(w.out, pair{append([]byte{}, k...), vc})
 	return nil
 }
 func (w *captureWriter) Close() error { return nil }
